@@ -29,9 +29,24 @@ LOG_TEXT = {
     "C13": ("model_checking", "SegLog.tla (abstract sequence + segmentation) is exhausted by TLC for short operation sequences; TLC-generated and directed operation sequences are replayed on a real log directory and every API observation (indexes, bytes, multi-entry reads, contains, CanLTE, front removal, view stability, results) is compared with the specification by TLC (SegLogTrace)", "5.C13"),
     "C14": ("fault_enumeration", "at every hook point inside every log operation of the replayed sequences the directory is copied (process-kill image) and combined with last-flushed file contents (power-loss images); each image is reopened with the real log.Open and judged by the TLA+ predicate RecoverOK against the specification's pre/post state of that operation", "5.C14"),
 }
+WIRE = {"C18": ("exploration", "TLC enumerates every vector of Wire.tla (grammar of every message, entry, configuration, snapshot label, replication status, task response, value file x value class per field); each vector is run through the real codecs: round trip with trailing bytes, bytes consumed = EncLen computed by the specification, every sampled proper prefix fails; TLC (WireObs) evaluates the predicates", "5.C18")}
 checks = []
 for p in props:
     pid = p["id"]
+    if pid in WIRE:
+        cat, text, ref = WIRE[pid]
+        checks.append({
+            "property_id": pid,
+            "quick_cmd": "python3 bin/check_wire.py %s --tier quick" % pid,
+            "thorough_cmd": "python3 bin/check_wire.py %s --tier thorough" % pid,
+            "evidence_file": "/verif/evidence/%s.json" % pid,
+            "replay_cmd_template": "python3 bin/check_wire.py %s --replay {path}" % pid,
+            "engine": "tlc-wire",
+            "level_claimed": {"category": cat, "text": text, "design_ref": ref},
+            "level_note": "exhaustive over the product of value classes, one representative value per class; the specification contributes grammar, class product and encoded lengths - not value fidelity inside a class",
+            "technique": "TLA+ grammar (Wire.tla): TLC state graph -> one implementation test per initial state; predicates evaluated by TLC on the codec reports",
+        })
+        continue
     if pid in LOG_TEXT:
         cat, text, ref = LOG_TEXT[pid]
         checks.append({
@@ -81,6 +96,7 @@ m = {
     "engines": [
         {"name": "tlc-raft", "path": "/verif/tla", "serves_properties": sorted(claimed),
          "kind_free_text": "TLA+ specification Raft.tla (+RaftProps property operators) checked with TLC: exhaustive bounded configs, -simulate schedule generation, RaftTrace trace validation and RaftObs observation checking of real-code recordings produced by the Layer-1 harness (/verif/harness/raft)"},
+        {"name": "tlc-wire", "path": "/verif/tla/Wire.tla", "serves_properties": ["C18"], "kind_free_text": "TLA+ grammar of all encodings; vectors enumerated by TLC, run through the real codecs, judged by WireObs"},
         {"name": "tlc-seglog", "path": "/verif/tla/SegLog.tla", "serves_properties": ["C13", "C14"],
          "kind_free_text": "TLA+ specification of the segmented log (SegLog.tla), SegLogTrace conformance of recordings made by /verif/harness/log on real log directories incl. crash images"},
     ],
